@@ -32,7 +32,7 @@ try:
     for f in demos:
         shutil.copy(os.path.join(mut, f), os.path.join(WT, dest, f))
     pkg = "./" + dest if dest != "." else "."
-    rc, out = sh(f"{ENV} cd {WT} && go test -vet=off -count=1 -run '{rx}' {pkg}")
+    rc, out = sh(f"{ENV} cd {WT} && go test -vet=off -count=1 -timeout 400s -run '{rx}' {pkg}")
     res["demo_clean"] = "PASS" if rc == 0 and "ok" in out else "FAIL: " + out[-600:]
     print("demo on clean tree:", res["demo_clean"][:200])
     rc, out = sh(f"git -C {WT} apply {mut}/patch.diff")
@@ -40,7 +40,7 @@ try:
         print("patch does not apply:", out)
         res["patch"] = "does not apply"
         sys.exit(2)
-    rc, out = sh(f"{ENV} cd {WT} && go test -vet=off -count=1 -run '{rx}' {pkg}")
+    rc, out = sh(f"{ENV} cd {WT} && go test -vet=off -count=1 -timeout 400s -run '{rx}' {pkg}")
     res["demo_patched"] = "FAIL (as required)" if rc != 0 and "FAIL" in out else "UNEXPECTED PASS"
     res["demo_patched_output"] = out[-800:]
     print("demo with the change:", res["demo_patched"])
